@@ -261,7 +261,7 @@ func checkC02(c *km.Ctx) {
 			a := ci.Common().Args
 			r.Add("R-C02-3", km.FuncName(fn), "ssh: certified user", posOf(c, ci), "the authenticated user name", km.ValStr(a[0]), isAuthUser(a[0]))
 			keyStr := km.Unwrap(a[1])
-			fromFile := isBufferStringOfFormFile(fn, keyStr, "pubkeyfile")
+			fromFile := derivesFromFormFile(c, fn, keyStr, "pubkeyfile", 0)
 			validated := false
 			for _, c2 := range km.CallsIn(fn) {
 				if km.CalleeFull(c2.Common()) == KMD+".getValidSSHPublicKey" && km.Unwrap(c2.Common().Args[0]) == keyStr && km.InstrDominates(c2, ci) {
@@ -333,22 +333,55 @@ func checkC02(c *km.Ctx) {
 			a := ci.Common().Args
 			r.Add("R-C02-3", km.FuncName(fn), "x509: certified user", posOf(c, ci), "the authenticated user name", km.ValStr(a[0]), isAuthUser(a[0]))
 			pub := km.Unwrap(a[1])
-			pc, idx := callRes(pub)
-			fromPEM := false
-			if pc != nil && idx == 0 && km.CalleeFull(pc.Common()) == "crypto/x509.ParsePKIXPublicKey" {
-				if base, fld, ok := km.FieldOfLoad(km.Unwrap(pc.Common().Args[0])); ok && fld == "Bytes" {
-					if dc, di := callRes(km.Unwrap(base)); dc != nil && di == 0 && km.CalleeFull(dc.Common()) == "encoding/pem.Decode" {
-						if bc, ok := km.Unwrap(dc.Common().Args[0]).(*ssa.Call); ok && km.CalleeFull(bc.Common()) == "(*bytes.Buffer).Bytes" {
-							fromPEM = bufferFilledFromFormFile(fn, km.Unwrap(bc.Common().Args[0]), "pubkeyfile")
+			// the key value, followed through a validating helper that hands it back
+			fromPEM, validated := true, true
+			nLeaves := 0
+			for _, k := range c.F.At(ci) {
+				for _, lf := range s.Leaves(k, fn, nil, pub, nil, 2) {
+					nLeaves++
+					lv := km.Unwrap(lf.Val)
+					pc, idx := callRes(lv)
+					okPEM := false
+					if pc != nil && idx == 0 && km.CalleeFull(pc.Common()) == "crypto/x509.ParsePKIXPublicKey" {
+						if base, fld, ok := km.FieldOfLoad(km.Unwrap(pc.Common().Args[0])); ok && fld == "Bytes" {
+							if dc, di := callRes(km.Unwrap(base)); dc != nil && di == 0 && km.CalleeFull(dc.Common()) == "encoding/pem.Decode" {
+								src := km.Unwrap(dc.Common().Args[0])
+								// inside a helper the PEM text is its parameter: what the handler passed for it
+								if p, isP := src.(*ssa.Parameter); isP && lf.Fn != fn {
+									for _, c2 := range km.CallsIn(fn) {
+										if km.StaticCallee(c2.Common()) == lf.Fn {
+											for i, q := range lf.Fn.Params {
+												if q == p && i < len(km.CallArgs(c2.Common())) {
+													src = km.Unwrap(km.CallArgs(c2.Common())[i])
+												}
+											}
+										}
+									}
+								}
+								okPEM = derivesFromFormFile(c, fn, src, "pubkeyfile", 0)
+							}
 						}
+					}
+					if !okPEM {
+						fromPEM = false
+					}
+					okVal := false
+					if lf.Fn != nil {
+						for _, c2 := range km.CallsIn(lf.Fn) {
+							if km.CalleeFull(c2.Common()) == certgenPkg+".ValidatePublicKeyStrength" && km.Unwrap(c2.Common().Args[0]) == lv {
+								if (lf.Fn == fn && km.InstrDominates(c2, ci)) || (lf.Fn != fn && lf.Ret != nil && km.InstrDominates(c2, lf.Ret)) {
+									okVal = true
+								}
+							}
+						}
+					}
+					if !okVal {
+						validated = false
 					}
 				}
 			}
-			validated := false
-			for _, c2 := range km.CallsIn(fn) {
-				if km.CalleeFull(c2.Common()) == certgenPkg+".ValidatePublicKeyStrength" && km.Unwrap(c2.Common().Args[0]) == pub && km.InstrDominates(c2, ci) {
-					validated = true
-				}
+			if nLeaves == 0 {
+				fromPEM, validated = false, false
 			}
 			r.Add("R-C02-3", km.FuncName(fn), "x509: certified key", posOf(c, ci), "the key parsed from the request's pubkeyfile PEM, the same value that was strength-checked", sprintf("from-pubkeyfile=%v same-value-validated=%v", fromPEM, validated), fromPEM && validated)
 			// signer + CA pair
@@ -534,6 +567,54 @@ func bufferFilledFromFormFile(fn *ssa.Function, buf ssa.Value, key string) bool 
 		}
 	}
 	return n == 1 && good
+}
+
+// derivesFromFormFile: v (text or bytes, in fn's frame) is the content of the uploaded form file `key`: the
+// Bytes()/String() of a buffer filled only from r.FormFile(key), a conversion of that, or the result of a reader
+// helper every successful return of which is such content.
+func derivesFromFormFile(c *km.Ctx, fn *ssa.Function, v ssa.Value, key string, depth int) bool {
+	v = km.Unwrap(v)
+	if depth > 4 {
+		return false
+	}
+	switch x := v.(type) {
+	case *ssa.Convert:
+		return derivesFromFormFile(c, fn, x.X, key, depth+1)
+	case *ssa.Extract:
+		if x.Index != 0 {
+			return false
+		}
+		return derivesFromFormFile(c, fn, x.Tuple, key, depth+1)
+	case *ssa.Call:
+		name := km.CalleeFull(x.Common())
+		if name == "(*bytes.Buffer).Bytes" || name == "(*bytes.Buffer).String" {
+			return bufferFilledFromFormFile(fn, km.Unwrap(x.Common().Args[0]), key)
+		}
+		g := km.StaticCallee(x.Common())
+		if g == nil || g.Blocks == nil || !c.InModule(g) {
+			return false
+		}
+		n, okAll := 0, true
+		km.Instrs(g, func(in ssa.Instruction) {
+			ret, isRet := in.(*ssa.Return)
+			if !isRet || (g.Recover != nil && ret.Block() == g.Recover) {
+				return
+			}
+			rv := km.ReturnValues(ret)[0]
+			if km.IsNilConst(rv) {
+				return
+			}
+			if cs, isC := km.ConstString(rv); isC && cs == "" {
+				return
+			}
+			n++
+			if !derivesFromFormFile(c, g, rv, key, depth+1) {
+				okAll = false
+			}
+		})
+		return n > 0 && okAll
+	}
+	return false
 }
 
 func isBufferStringOfFormFile(fn *ssa.Function, v ssa.Value, key string) bool {
